@@ -4,12 +4,13 @@ from .driver import Case
 HEADER = "From Coq Require Import List ZArith. Import ListNotations. From RM Require Import Exec. Open Scope Z_scope."
 
 ERRDELAY = 3      # ms the (awaited) error callback of the futures+fallible executor takes in the harness
-def mk_case(kind, chan, L, tau, tclose, items, instr="metrics"):
-    line = "exec kind=%s chan=%s L=%d tau=%d tclose=%d instr=%s ; %s ; S" % (kind, chan, L, tau, tclose, instr, " ".join("it:%d:%d" % (d, int(f)) for d, f in items))
+def mk_case(kind, chan, L, tau, tclose, items, instr="metrics", R=0):
+    line = "exec kind=%s chan=%s L=%d tau=%d tclose=%d instr=%s%s ; %s ; S" % (kind, chan, L, tau, tclose, instr, " R=%d" % R if R else "", " ".join("it:%d:%d" % (d, int(f)) for d, f in items))
     its = "[%s]" % "; ".join("{| dur := %d; fails := %s |}" % (d, "true" if f else "false") for d, f in items)
     met = "false" if instr == "none" else "true"
     coq = ("exec_trace %d %d %d %s %s %d" % (L, tau, ERRDELAY if kind == "ff" else 0, met, its, tclose)) if kind in ("ff", "fn") else ("exec_trace_sync %s %s" % (met, its))
-    return Case(line, coq, dict(profile="exec", kind=kind, chan=chan, L=L, tau=tau, tclose=tclose, items=items, instr=instr))
+    if kind == "fb": coq = None          # a pipeline that reads ahead of the executor (`.buffered(R)`): no model, judged by the oracle only
+    return Case(line, coq, dict(profile="exec", kind=kind, chan=chan, L=L, tau=tau, tclose=tclose, items=items, instr=instr, R=R))
 
 def parse_case_line(line):
     secs = [s.strip() for s in line.split(";")]
@@ -17,7 +18,7 @@ def parse_case_line(line):
     if secs[0].startswith("status"): return mk_status(params["sched"], int(params["n"]))
     if secs[0].startswith("latch"): return mk_latch(int(params["M"]), int(params["n"]), int(params["tclose"]))
     items = [(int(t.split(":")[1]), t.split(":")[2] == "1") for t in secs[1].split()]
-    return mk_case(params["kind"], params["chan"], int(params["L"]), int(params["tau"]), int(params["tclose"]), items, params.get("instr", "metrics"))
+    return mk_case(params["kind"], params["chan"], int(params["L"]), int(params["tau"]), int(params["tclose"]), items, params.get("instr", "metrics"), int(params.get("R", 0)))
 
 def gen_case(rng, maxL=4):
     kind = rng.choice(["ff", "ff", "ff", "fn", "nf", "nn"])
@@ -31,6 +32,13 @@ def gen_case(rng, maxL=4):
     else:
         tau = 0; items = [(0, kind == "nf" and rng.random() < 0.3) for _ in range(n)]; tclose = rng.choice([0, 5])
     return mk_case(kind, chan, L, tau, tclose, items, rng.choice(["metrics", "metrics", "expensive", "counters", "none"]))
+
+def gen_readahead_case(rng):
+    """executor concurrency limit 1, but the pipeline itself drives up to R item futures at a time (`.buffered(R)`); close is called while
+    some of them are still pending"""
+    n = rng.randint(1, 8)
+    items = [(rng.choice([10, 20, 30, 40, 60]), False) for _ in range(n)]
+    return mk_case("fb", rng.choice(["full_sync", "atomic", "crossbeam"]), 1, 0, rng.choice([0, 0, 5, 15, 25, 45]), items, rng.choice(["metrics", "none"]), R=rng.randint(2, 4))
 
 SCHEDS = {"never": "[SStart; SFinish]", "before": "[SSched; SStart; SFinish]", "during": "[SStart; SSched; SFinish]", "endlog": "[SStart; SFinish; SSched]"}
 def mk_status(sched, n):
